@@ -764,13 +764,21 @@ def c04_family(tier, rnd):
             progs.append(program(items, al.dom, init={"x": S("c"), "y": S("p")} if sname.startswith("wrap") else {},
                                  fam="C04:%s@%s" % (sname, site)))
     # a switch with several cases: the cases after the matching one are not evaluated (each case expression a call)
+    # (a case belongs to the nearest enclosing switch, however deep it stands: directly inside, inside a plain wrapper
+    # element, inside a template-namespace block with a condition of its own)
     for ncases in (2, 3):
-        al = Alloc(tier)
-        items = [Text("pre"), Open(sw=al.call("switch", [S("a"), S("b")]))]
-        for c in range(ncases):
-            items += [Open(cs=al.call("case", [S("a"), S("b"), S("c"), EXC("ZeroDivisionError")]), sattr=[]), Text("c%d" % c), CLOSE]
-        items += [Open(cs=DFLT, sattr=[]), Text("d"), CLOSE, CLOSE, Text("post")]
-        progs.append(program(items, al.dom, fam="C04:cases:%d" % ncases))
+        for nest in ("child", "wrapped", "block"):
+            al = Alloc(tier)
+            items = [Text("pre"), Open(sw=al.call("switch", [S("a"), S("b")]))]
+            for c in range(ncases):
+                case = [Open(cs=al.call("case", [S("a"), S("b"), S("c"), EXC("ZeroDivisionError")]), sattr=[]), Text("c%d" % c), CLOSE]
+                if nest == "wrapped" and c > 0:
+                    case = [Open(name="tbody", sattr=[])] + case + [CLOSE]
+                elif nest == "block" and c > 0:
+                    case = [Open(tag="ns", cond=al.call("cond", [B(True), B(False)]))] + case + [CLOSE]
+                items += case
+            items += [Open(cs=DFLT, sattr=[]), Text("d"), CLOSE, CLOSE, Text("post")]
+            progs.append(program(items, al.dom, fam="C04:cases:%d:%s" % (ncases, nest)))
     # an assignment expression that is never reached (its element is not rendered) binds nothing: the name it mentions is
     # the template variable in every other expression -- bound by render(), by a later tal:define, by a tal:repeat, or
     # unbound (a lookup error that `|` absorbs).  (A REACHED assignment expression binds the template variable; the
